@@ -255,6 +255,10 @@ class CallableParallelExecution(
         """
         if callable(exec_callback):
             exec_callback = [exec_callback]
+        else:
+            # The callbacks are called for every task:
+            # a one-shot iterable would be exhausted by the first one.
+            exec_callback = tuple(exec_callback)
 
         n_tasks = len(inputs)
 
